@@ -1,0 +1,24 @@
+//go:build verif
+
+// Contracts for gvc (/verif). Comment-only: this file adds no declarations.
+
+package lsp
+
+// C44: byte offsets and LSP positions round-trip at character boundaries.
+//
+// walkString reports (index, position) pairs in increasing index order. The
+// round-trip of lspPositionFromIdx / lspPositionToIdx rests on the positions
+// being STRICTLY increasing (lexicographically) from one reported pair to the
+// next: lspPositionToIdx returns the first index whose position is >= the
+// requested one, so two different indices with the same position cannot both
+// round-trip. The step clause below states exactly that for one loop iteration.
+
+//@ spec fn poslt(l1 int, c1 int, l2 int, c2 int) bool = l1 < l2 || (l1 == l2 && c1 < c2)
+
+//@ func walkString
+//@   props C44
+//@   requires len(s) < 1073741824
+//@   loop 1 invariant 0 <= p.Line && p.Line <= range_pos && 0 <= p.Character && p.Character <= 2 * range_pos
+//@   loop 1 step [strictly-increasing-position] poslt(old(p.Line), old(p.Character), p.Line, p.Character)
+//@   loop 1 step [utf16-units] p.Line == old(p.Line) ==> p.Character == old(p.Character) + (r <= 65535 ? 1 : 2)
+//@   loop 1 step [line-break] p.Line != old(p.Line) ==> p.Line == old(p.Line) + 1 && p.Character == 0 && (r == '\r' || r == '\n')
